@@ -2,7 +2,7 @@
    never share state with its original; what the theorems state is fidelity: same uids element for element, structural
    invariants (parent links naming elements of the copy), names, self-closing flags, text, and serialisation. *)
 From AHP Require Import Model.Base Model.Str Model.Attr Model.Dom Model.Serial Model.Search Model.Index Model.Observe
-     Proofs.AttrProofs Proofs.DomProofs Proofs.IndexProofs Proofs.ObserveProofs.
+     Proofs.AttrProofs Proofs.DomProofs Proofs.IndexProofs Proofs.ObserveProofs Proofs.CodecProofs Proofs.CloneProofs.
 
 Theorem C17_uids : forall t p, uids_of (unpickle p t) = uids_of t.
 Proof. exact unpickle_uids. Qed.
@@ -16,9 +16,14 @@ Proof. exact unpickle_shape. Qed.
 Theorem C17_serialisation : forall t p, Forall (fun x => AttrFaithful (attrs (hd_ x)) /\ indent (hd_ x) = "") (all_nodes t) ->
   outer_html (unpickle p t) = outer_html t.
 Proof. exact unpickle_html. Qed.
-(* ... which is proved for mappings of plain names; class, style and boolean-string attributes are evaluated case by case
-   in the correspondence (C17 is partial here) *)
-Theorem C17_plain_attribute_fidelity_partial : forall s, PlainStore s -> fst (clone_attrs s) = s.
+(* ... which holds for every mapping the constructor builds (parsing, AdvancedTag(name, attrList)): plain, boolean, value-less,
+   class and style attributes, duplicates and mixed case included, provided no style declaration has an empty name or value *)
+Theorem C17_constructed_attribute_fidelity : forall l, attrs_ok l -> AttrFaithful (fst (intake l st0)).
+Proof. exact constructor_faithful. Qed.
+(* the invariant behind it, kept by every attribute write of that kind *)
+Theorem C17_built_faithful : forall s, Built s -> AttrFaithful s.
+Proof. exact Built_faithful. Qed.
+Theorem C17_plain_attribute_fidelity : forall s, PlainStore s -> fst (clone_attrs s) = s.
 Proof. exact PlainStore_clone. Qed.
 Theorem C17_clone : forall u t, bs_ (clone_node u t) = [BText ""] /\ tuid (clone_node u t) = u /\ name (hd_ (clone_node u t)) = name (hd_ t)
   /\ sc (hd_ (clone_node u t)) = sc (hd_ t) /\ parent (hd_ (clone_node u t)) = None /\ owner (hd_ (clone_node u t)) = None
@@ -31,5 +36,7 @@ Proof.
   - repeat constructor; simpl; intuition discriminate.
   - repeat (constructor; [unfold plain_entry; simpl; repeat split; try reflexivity; ((left; reflexivity) || (right; eexists; reflexivity))|]). constructor.
 Qed.
+Example C17_ex_attrs_ok : attrs_ok [("ID", Some "a"); ("class", Some " x  y "); ("style", Some "Color : red; padding-top:5px"); ("hidden", None); ("class", Some "z")].
+Proof. repeat constructor; simpl; try discriminate; intros _; vm_compute; repeat constructor; discriminate. Qed.
 Example C17_ex_faithful : AttrFaithful (fst (intake [("id", Some "a"); ("class", Some "x y"); ("style", Some "color: red"); ("hidden", None)] st0)).
 Proof. vm_compute. reflexivity. Qed.
